@@ -26,10 +26,10 @@ def main(pid, tier, replay_path=None):
     try:
         with vlib.Scratch('slot') as sc:
             binary = vlib.build_harness(sc, '.', instrumented_pool=True)
-            scs = [json.load(open(replay_path))['scenario']] if replay_path else gen(2500 if tier == 'quick' else 40000, seed)
+            scs = [json.load(open(replay_path))['scenario']] if replay_path else gen(2500 if tier == 'quick' else 120000, seed)
             res, crashed = conn.run_scenarios(sc, binary, scs, 's', procs=12, test='TestVerifSlotScenarios')
             if not replay_path:
-                extra = conn.stall_variants(scs[:60 if tier == 'quick' else 1200], res, per_scenario=30 if tier == 'quick' else 60, rnd=random.Random(seed), skip_actors=())
+                extra = conn.stall_variants(scs[:60 if tier == 'quick' else 3000], res, per_scenario=30 if tier == 'quick' else 60, rnd=random.Random(seed), skip_actors=())
                 res2, crashed2 = conn.run_scenarios(sc, binary, extra, 't', procs=12, test='TestVerifSlotScenarios')
                 scs = scs + extra
                 res.update(res2)
